@@ -9,11 +9,9 @@ theorem sSubs_ok {api : Api} (hapi : apiWF api = true) {ns : Namespace} (hns : n
     ∃ st', Steps st (modName ns) (sSubs ns.name d) st' := by
   by_cases hsub : d.hasSubtypes = true
   · simp only [sSubs, hsub, if_true]
-    obtain ⟨_, hfix, _⟩ := typeWF_subtypes_clause htw hsub
     have hok := hcls d hd
-    have hcA : ClsAt st (modName ns) d.name (clsId ns.name d.name) := by
-      have := hok.clsAt; rwa [hfix] at this
-    have rC : ∀ st', Le st st' → Ready st' (modName ns) (here d.name) :=
+    have hcA : ClsAt st (modName ns) (fmtClass d.name) (clsId ns.name d.name) := hok.clsAt
+    have rC : ∀ st', Le st st' → Ready st' (modName ns) (here (fmtClass d.name)) :=
       fun st' hle => ready_cls (hle.glob _ _ _ hcA.glob)
     have rV : ∀ r ∈ d.subtypes.flatMap (fun (sns, sn) => tyRefs ns.name (.user sns sn)), Ready st (modName ns) r := by
       intro r hr
@@ -32,13 +30,13 @@ theorem sSubs_ok {api : Api} (hapi : apiWF api = true) {ns : Namespace} (hns : n
       rw [hsn] at this
       exact ready_cls this
     obtain ⟨st1, hs1, _⟩ := assign_on_class (a := "_tag_to_subtype_")
-      (uses := here d.name :: d.subtypes.flatMap fun (sns, sn) => tyRefs ns.name (.user sns sn)) hwf hcA
+      (uses := here (fmtClass d.name) :: d.subtypes.flatMap fun (sns, sn) => tyRefs ns.name (.user sns sn)) hwf hcA
       (fun r hr => by
         rcases List.mem_cons.mp hr with rfl | hr
         · exact rC st (Le.refl _)
         · exact rV r hr)
     obtain ⟨st2, hs2, _⟩ := assign_on_class (a := "_pytype_to_tag_and_subtype_")
-      (uses := here d.name :: (d.subtypes.map fun (_, sn) => here (fmtClass sn))
+      (uses := here (fmtClass d.name) :: (d.subtypes.map fun (_, sn) => here (fmtClass sn))
         ++ d.subtypes.flatMap fun (sns, sn) => tyRefs ns.name (.user sns sn)) hs1.wf (hcA.mono hs1.le)
       (fun r hr => by
         simp only [List.cons_append, List.mem_cons, List.mem_append] at hr
@@ -47,7 +45,7 @@ theorem sSubs_ok {api : Api} (hapi : apiWF api = true) {ns : Namespace} (hns : n
         · exact (rCls r hr).mono hs1.le
         · exact (rV r hr).mono hs1.le)
     have hle2 := hs1.le.trans hs2.le
-    obtain ⟨st3, hs3, _⟩ := assign_on_class (a := "_is_catch_all_") (uses := [here d.name]) hs2.wf (hcA.mono hle2)
+    obtain ⟨st3, hs3, _⟩ := assign_on_class (a := "_is_catch_all_") (uses := [here (fmtClass d.name)]) hs2.wf (hcA.mono hle2)
       (fun r hr => by simp only [List.mem_singleton] at hr; subst hr; exact rC st2 hle2)
     exact ⟨st3, hs1.cons (hs2.cons hs3)⟩
   · simp only [sSubs, hsub, Bool.false_eq_true, if_false]
